@@ -46,6 +46,8 @@ def gen_hist(rng, nops):
             how = rng.choice(["cc", "mc", "ca", "ma"])
             dst = rng.choice(sorted(live) + [nxt]) if how in ("ca", "ma") else nxt
             if dst == b:
+                if how == "ca":
+                    toks.append("cp:%d:%d:ca" % (b, b))     # self-assignment (through an alias, blocks[i] = blocks[j] with i == j): nothing may change
                 continue
             toks.append("cp:%d:%d:%s" % (dst, b, how))
             if dst == nxt:
@@ -80,6 +82,8 @@ def check(run):
     # and keeps reading after its source is gone
     cases.append(["new:0", "iq:0:1", "iq:0:2", "im:0:7", "im:0:8", "im:0:9", "ia:0:3", "ia:0:3", "ia:0:5", "cp:1:0:cc", "rq:1", "rm:1", "rm:1",
                   "new:2", "im:2:4", "im:2:5", "cp:1:2:ca", "rm:1", "rm:1", "rm:1", "rq:1", "cp:3:0:cc", "del:0", "RA:3", "rq:3", "rq:3", "rq:3", "rm:3"])
+    cases.append(["new:0", "aip:0:x0a", "act:0:1.1", "anr:0:x0b", "iq:0:4", "iq:0:5", "rq:0", "cp:0:0:ca", "gip:0:0", "gct:0:0", "gnr:0:0", "aip:0:x0a", "aip:0:x0c",
+                  "sip:0", "rq:0", "rq:0", "w:0"])
     cases.append(["new:0", "st:0:7", "new:1", "cp:0:1:ca", "gs:0", "new:2", "st:2:3", "cp:3:2:cc", "gs:3", "cp:3:1:ma", "gs:3", "w:3", "w:1"])
     cases.append(["new:0", "ia:0:1", "ia:0:2", "ia:0:2", "iq:0:6", "cp:1:0:mc", "cp:2:1:cc", "RA:1", "del:1", "RA:2", "RA:2", "rq:2", "w:2", "w:0"])
     compare(run, cases, seen, "copy")
